@@ -77,6 +77,16 @@ func stripConv(v ssa.Value) ssa.Value {
 // string. Loads of the same address expression get the same string.
 func describe(v ssa.Value) string { return describeD(v, 0) }
 
+// describeUniquePhi makes φ-nodes render with their unique SSA name (used for decision keys).
+var describeUniquePhi bool
+
+// decisionKey: canonical (atom, negated) key of a branch condition with unique φ names.
+func decisionKey(cond ssa.Value) (string, bool) {
+	describeUniquePhi = true
+	defer func() { describeUniquePhi = false }()
+	return condLit(cond)
+}
+
 func describeD(v ssa.Value, d int) string {
 	if d > 12 {
 		return "…"
@@ -183,6 +193,9 @@ func describeD(v ssa.Value, d int) string {
 	case *ssa.Extract:
 		return describeD(x.Tuple, d+1) + "#" + fmt.Sprint(x.Index)
 	case *ssa.Phi:
+		if describeUniquePhi {
+			return "φ:" + x.Comment + "#" + x.Parent().Name() + "." + x.Name()
+		}
 		if x.Comment != "" {
 			return "φ:" + x.Comment
 		}
